@@ -530,6 +530,12 @@ func (en *Env) fieldOfObject(elem types.Type, sty *types.Struct, ref *Term, sel 
 			if sv, ok := fv.(VString); ok && len(en.bound) == 0 {
 				en.st.assume(en.st.stringWF(sv))
 			}
+			if sv, ok := fv.(VScalar); ok && len(en.bound) == 0 {
+				// a numeric field holds a value of its type
+				if n, isNum := numOf(ft); isNum && !n.Float {
+					en.st.assume(e.ar.InRange(n, sv.T))
+				}
+			}
 			return TV{V: fv, T: ft}
 		}
 	}
